@@ -96,10 +96,8 @@ func expectedEvents(c *TxCtx) (must []string, may map[string]bool) {
 		if x.State == mtypes.BidClosed && (!had || xb.State != mtypes.BidClosed) {
 			must = append(must, evKey(mtypes.EventBidClosed{ID: x.BidID, Price: x.Price}))
 		}
-		if x.State == mtypes.BidLost && (!had || xb.State != mtypes.BidLost) {
-			// a lost bid is ended but not "closed": an event is tolerated, not demanded
-			may[evKey(mtypes.EventBidClosed{ID: x.BidID, Price: x.Price})] = true
-		}
+		// a bid that lost is in state "lost", not "closed": no bid-closed event is due for it, and none is
+		// tolerated ("no closed event is emitted for an object that did not change in that way")
 	}
 	for _, k := range keysOf(a.Leases) {
 		x := a.Leases[k]
